@@ -157,8 +157,10 @@ def run_job(j, prop_dir, use_cache=True, want_functions=False):
         if err: out['error'] = err; out['wall_s'] = time.time() - t0; return out
         parsed['cbmc_wall_s'] = time.time() - t0
         os.makedirs(CACHE, exist_ok=True)
-        tmp = cpath + '.%d.tmp' % os.getpid()
-        json.dump(parsed, open(tmp, 'w')); os.replace(tmp, cpath)
+        import uuid
+        tmp = cpath + '.%s.tmp' % uuid.uuid4().hex
+        with open(tmp, 'w') as fh: json.dump(parsed, fh)
+        os.replace(tmp, cpath)
     out.update(results=parsed['results'], stats=parsed['stats'], cbmc_status=parsed['status'])
     out['wall_s'] = time.time() - t0
     return out
@@ -186,10 +188,18 @@ def build_native_c(j, wd, c):
 
 def run_native(exe, inputs, timeout=20):
     env = dict(os.environ, ASAN_OPTIONS='detect_leaks=0:abort_on_error=0', UBSAN_OPTIONS='print_stacktrace=0')
-    try:
-        r = subprocess.run([exe] + [str(x) for x in inputs], stdout=subprocess.PIPE, stderr=subprocess.PIPE, text=True, timeout=timeout, env=env)
-    except subprocess.TimeoutExpired:
-        return {'rc': -1, 'hash': None, 'fails': ['timeout'], 'assume_false': False, 'san': ''}
+    r = None
+    for attempt in range(5):
+        try:
+            r = subprocess.run([exe] + [str(x) for x in inputs], stdout=subprocess.PIPE, stderr=subprocess.PIPE, text=True, timeout=timeout, env=env)
+            break
+        except subprocess.TimeoutExpired:
+            return {'rc': -1, 'hash': None, 'fails': ['timeout'], 'assume_false': False, 'san': '', 'witness': []}
+        except OSError:
+            # ETXTBSY/EACCES race: another thread forked while the linker still had the file open
+            time.sleep(0.3 * (attempt + 1))
+    if r is None:
+        return {'rc': -2, 'hash': None, 'fails': ['cannot execute native binary'], 'assume_false': False, 'san': '', 'witness': []}
     fails = re.findall(r'^ASSERT-FAIL: (.*)$', r.stdout, re.M)
     m = re.search(r'^HASH ([0-9a-f]+)$', r.stdout, re.M)
     san = ''
